@@ -52,6 +52,11 @@ CLAIMED["C19"] = dict(
    note="Bounds: 2 rules quick / 3 thorough (+4 catch-all-only), interface names any 2 bytes, CIDR any /8, flags and modes symbolic. One deviation is a listed known finding (CIDR-only vs global when the lookup has an interface name; pinned by the repo's own test). Trusted: encoder, z3, net.IPNet.Contains/IP.String as real code. Outside: text validation beyond the pool.",
    ref="DESIGN.md §5 C19")
 
+CLAIMED["C16"] = dict(
+   text="(a) every ICE STUN attribute codec (PRIORITY, ICE-CONTROLLING/CONTROLLED, AttrControl, USE-CANDIDATE, nomination, DTLS-in-STUN and ACK) is proved to round-trip for all values through the real stun.Message.Add/Get and to accept exactly the documented sizes for every attribute length 0..20; (b) Equal/DeepEqual reflexivity, symmetry and DeepEqual=>Equal over pairs of candidates built by the real constructors with symbolic port/component/priority/TCP type/extensions; (c) the five tokenizers on every byte string up to the bound (full UTF-8 decoding modelled symbolically) from every offset; extension marshal/unmarshal round trip; (d) Marshal->UnmarshalCandidate round trip with numeric fields represented by their decimal digits so that %d is exact; arbitrary tails after valid prefixes never panic and accepted text re-marshals to an Equal candidate.",
+   note="Bounds: strings <= 4 bytes quick / 6 thorough; extensions of 1..2 bytes; address pool of 5 (IPv4, IPv6, IPv4-mapped, mDNS); one numeric field at a time over its digit counts. Two defects found by this check were repaired (related address with port 0 dropped by Marshal; DeepEqual irreflexive with a TCP type). Trusted: encoder, z3, fmt model for %s/%d/%v, CRC uninterpreted. Outside: longer strings, netip.ParseAddr on fully symbolic text.",
+   ref="DESIGN.md §5 C16")
+
 NOT_APPLICABLE = {
  "C01": "needs two live agents, a symbolic network scheduler and a fairness (liveness) argument; a sequential encoder of single functions cannot express it (its safety half is covered by the C02/C03 lemmas)",
  "C08": "termination / unblocking of blocked goroutines and a goroutine census: no scheduler or channel model in a sequential SSA encoder",
@@ -64,7 +69,6 @@ NOT_BUILT = {
  "C12": "check not built yet in this round (planned in DESIGN.md §5); not claimed",
  "C13": "check not built yet in this round (planned in DESIGN.md §5); not claimed",
  "C15": "check not built yet in this round (planned in DESIGN.md §5); not claimed",
- "C16": "check not built yet in this round (planned in DESIGN.md §5); not claimed",
  "C18": "check not built yet in this round (planned in DESIGN.md §5); not claimed",
 }
 
